@@ -320,6 +320,73 @@ Proof.
       * rewrite (IH lo s H4), inR_cons. intuition lia.
 Qed.
 
+Lemma wfa_app_l : forall l1 l2 lo hi, wfa lo hi (l1 ++ l2) -> wfa lo hi l1.
+Proof.
+  induction l1 as [| [s e] r IH]; intros l2 lo hi H; simpl in *; [exact I |].
+  destruct H as (Ha & Hb & Hc & Hd). repeat split; auto. eapply IH; eauto.
+Qed.
+
+Lemma wfa_le_last_end : forall l lo hi q, wfa lo hi l -> inR q l ->
+  exists s e l', rev l = (s, e) :: l' /\ q <= e.
+Proof.
+  intros l lo hi q H Hq. apply wfa_wfd_rev in H. apply inR_rev in Hq.
+  destruct (rev l) as [| [s e] l']; [now apply inR_nil in Hq |].
+  exists s, e, l'. split; [reflexivity |].
+  simpl in H. destruct H as (H1 & H2 & H3 & H4).
+  apply inR_cons in Hq as [Hq | Hq]; [lia |]. destruct (wfd_bounds _ _ _ _ H4 Hq). lia.
+Qed.
+
+Lemma wfa_nonempty_first : forall l lo hi, wfa lo hi l -> l <> [] -> exists q, inR q l.
+Proof.
+  intros [| [s e] r] lo hi H Hne; [contradiction |]. simpl in H. exists s. apply inR_cons. left. lia.
+Qed.
+
+Lemma MaxNumAckRanges_pos0 : 1 <= rph_MaxNumAckRanges.
+Proof. unfold rph_MaxNumAckRanges. lia. Qed.
+
+Lemma wfa_raise : forall l lo hi lo', wfa lo hi l -> (forall q, inR q l -> lo' < q) -> wfa lo' hi l.
+Proof.
+  intros [| [s e] r] lo hi lo' H Hq; [exact I |]. simpl in *. destruct H as (H1 & H2 & H3 & H4).
+  repeat split; auto. apply Hq. apply inR_cons. left. lia.
+Qed.
+
+(** the truncation of [ReceivedPacket] together with the raise of [deletedBelow] *)
+Definition trim_db (db : Z) (rs : list interval) : Z :=
+  match trimmed_end rs with Some e => Z.max db (e + 1) | None => db end.
+
+Lemma trim_spec : forall rs db hi,
+  wfa (db - 1) hi rs ->
+  wfa (trim_db db rs - 1) hi (truncate rs) /\ db <= trim_db db rs /\
+  (forall q, inR q rs -> inR q (truncate rs) \/ q < trim_db db rs) /\
+  (Z.of_nat (length rs) <= rph_MaxNumAckRanges -> trim_db db rs = db /\ truncate rs = rs).
+Proof.
+  intros rs db hi H. pose proof MaxNumAckRanges_pos0 as Hmax. unfold trim_db, trimmed_end, truncate. unfold interval in *.
+  set (k := (length rs - Z.to_nat rph_MaxNumAckRanges)%nat).
+  destruct (Z.gtb_spec (Z.of_nat (length rs)) rph_MaxNumAckRanges) as [Hgt | Hle].
+  - assert (Hsplit : rs = firstn k rs ++ skipn k rs) by (symmetry; apply firstn_skipn).
+    rewrite Hsplit in H.
+    pose proof (wfa_app_l _ _ _ _ H) as Hl. pose proof (wfa_app_r _ _ _ _ H) as Hr.
+    assert (Hk : (1 <= k)%nat) by (unfold k; lia).
+    assert (Hne : firstn k rs <> []).
+    { intros E. apply (f_equal (@length _)) in E. rewrite firstn_length in E. simpl in E. lia. }
+    destruct (wfa_nonempty_first _ _ _ Hl Hne) as (q0 & Hq0).
+    destruct (wfa_le_last_end _ _ _ q0 Hl Hq0) as (s & e & l' & Hrev & _).
+    unfold interval in *. rewrite Hrev.
+    assert (Hine : inR e (firstn k rs)).
+    { exists s, e. split; [apply in_rev; rewrite Hrev; now left |].
+      assert (Hin : In (s, e) (firstn k rs)) by (apply in_rev; rewrite Hrev; now left).
+      clear -Hl Hin. revert Hl Hin. generalize (db - 1). induction (firstn k rs) as [| [a b] r IH]; intros lo Hl Hin; [contradiction |].
+      simpl in Hl. destruct Hl as (A1 & A2 & A3 & A4). destruct Hin as [E | Hin]; [inversion E; subst; lia | eauto]. }
+    split; [| split; [lia | split; [| lia]]].
+    + apply (wfa_raise _ (db - 1)); [assumption |]. intros q Hq.
+      pose proof (wfa_app_sep _ _ _ _ e q H Hine Hq). destruct (wfa_bounds _ _ _ _ Hr Hq). lia.
+    + intros q Hq. rewrite Hsplit in Hq. apply inR_app in Hq as [Hq | Hq]; [| now left].
+      right. destruct (wfa_le_last_end _ _ _ q Hl Hq) as (s' & e' & l'' & Hrev' & Hle). unfold interval in *.
+      assert (E : (s', e') :: l'' = (s, e) :: l') by congruence. inversion E; subst. lia.
+  - replace k with 0%nat by (unfold k; lia). cbn [firstn rev].
+    split; [assumption | split; [lia | split; [intros q Hq; now left | auto]]].
+Qed.
+
 (** * The history invariant *)
 
 Definition hist_ok (h : hist) : Prop :=
@@ -341,8 +408,9 @@ Proof.
   assert (Hwf' : wfa (deletedBelow h - 1) (Z.max hi (p + 2)) (ranges h)) by (eapply wfa_weaken; eauto; lia).
   destruct (addToRanges_spec p (ranges h) _ _ Hwf') as (A1 & _); try lia.
   destruct (addToRanges p (ranges h)) as [rs b]. cbn [fst snd] in *.
-  destruct (truncate_spec rs _ _ A1) as (T1 & _ & T3 & _).
-  split; cbn [ranges deletedBelow]; [eauto |]. pose proof MaxNumAckRanges_pos. lia.
+  destruct (truncate_spec rs _ _ A1) as (_ & _ & T3 & _).
+  destruct (trim_spec rs _ _ A1) as (S1 & _).
+  split; cbn [ranges deletedBelow]; [fold (trim_db (deletedBelow h) rs); eauto |]. pose proof MaxNumAckRanges_pos. lia.
 Qed.
 
 Lemma hist_delete_below_ok : forall h p, hist_ok h -> hist_ok (hist_delete_below h p).
@@ -365,10 +433,26 @@ Proof.
   intros Hq. destruct (truncate_spec rs _ _ A1) as (_ & T2 & _). apply T2, A2 in Hq. intuition.
 Qed.
 
-Lemma hist_recv_db : forall h p, deletedBelow (fst (hist_recv h p)) = deletedBelow h.
+Lemma hist_recv_db_le : forall h p, hist_ok h -> deletedBelow h <= deletedBelow (fst (hist_recv h p)).
 Proof.
-  intros h p. unfold hist_recv. destruct (p <? deletedBelow h); [reflexivity |].
-  destruct (addToRanges p (ranges h)); reflexivity.
+  intros h p ((hi & Hwf) & Hlen). unfold hist_recv.
+  destruct (Z.ltb_spec p (deletedBelow h)) as [Hlt | Hge]; [cbn; lia |].
+  assert (Hwf' : wfa (deletedBelow h - 1) (Z.max hi (p + 2)) (ranges h)) by (eapply wfa_weaken; eauto; lia).
+  destruct (addToRanges_spec p (ranges h) _ _ Hwf') as (A1 & _); try lia.
+  destruct (addToRanges p (ranges h)) as [rs b]. cbn [fst snd deletedBelow] in *.
+  destruct (trim_spec rs _ _ A1) as (_ & S2 & _). exact S2.
+Qed.
+
+(** nothing is trimmed, and the threshold stays, while fewer than MaxNumAckRanges ranges are tracked *)
+Lemma hist_recv_db_same : forall h p, hist_ok h ->
+  Z.of_nat (length (ranges h)) < rph_MaxNumAckRanges -> deletedBelow (fst (hist_recv h p)) = deletedBelow h.
+Proof.
+  intros h p ((hi & Hwf) & _) Hlen. unfold hist_recv.
+  destruct (Z.ltb_spec p (deletedBelow h)) as [Hlt | Hge]; [reflexivity |].
+  assert (Hwf' : wfa (deletedBelow h - 1) (Z.max hi (p + 2)) (ranges h)) by (eapply wfa_weaken; eauto; lia).
+  destruct (addToRanges_spec p (ranges h) _ _ Hwf') as (A1 & _ & _ & A4 & _); try lia.
+  destruct (addToRanges p (ranges h)) as [rs b]. cbn [fst snd deletedBelow] in *.
+  destruct (trim_spec rs _ _ A1) as (_ & _ & _ & S4). destruct S4 as (S4 & _); [lia | exact S4].
 Qed.
 
 (** the boolean verdicts *)
@@ -403,7 +487,8 @@ Proof.
   destruct (addToRanges_spec p (ranges h) _ _ Hwf') as (_ & _ & _ & _ & A5); try lia.
   destruct (addToRanges p (ranges h)) as [rs b]. cbn [fst snd] in *.
   intros Hb. rewrite (A5 Hb).
-  destruct (truncate_spec (ranges h) _ _ Hwf) as (_ & _ & _ & T4). rewrite (T4 Hlen).
+  destruct (trim_spec (ranges h) _ _ Hwf) as (_ & _ & _ & S4). destruct (S4 Hlen) as (S5 & S6).
+  fold (trim_db (deletedBelow h) (ranges h)). rewrite S5, S6.
   destruct h; reflexivity.
 Qed.
 
@@ -501,22 +586,6 @@ Definition pruned_by (h : hist) (p : Z) : option Z :=
     | (_, e) :: _ => Some e
     end.
 
-Lemma wfa_app_l : forall l1 l2 lo hi, wfa lo hi (l1 ++ l2) -> wfa lo hi l1.
-Proof.
-  induction l1 as [| [s e] r IH]; intros l2 lo hi H; simpl in *; [exact I |].
-  destruct H as (Ha & Hb & Hc & Hd). repeat split; auto. eapply IH; eauto.
-Qed.
-
-Lemma wfa_le_last_end : forall l lo hi q, wfa lo hi l -> inR q l ->
-  exists s e l', rev l = (s, e) :: l' /\ q <= e.
-Proof.
-  intros l lo hi q H Hq. apply wfa_wfd_rev in H. apply inR_rev in Hq.
-  destruct (rev l) as [| [s e] l']; [now apply inR_nil in Hq |].
-  exists s, e, l'. split; [reflexivity |].
-  simpl in H. destruct H as (H1 & H2 & H3 & H4).
-  apply inR_cons in Hq as [Hq | Hq]; [lia |]. destruct (wfd_bounds _ _ _ _ H4 Hq). lia.
-Qed.
-
 Lemma classic_inR : forall q l, inR q l \/ ~ inR q l.
 Proof.
   intros q l. induction l as [| [s e] r IH].
@@ -528,32 +597,32 @@ Proof.
 Qed.
 
 (** one step of retention: whatever was recognised as duplicate before [ReceivedPacket p],
-    and [p] itself, is recognised afterwards, unless the range limit dropped it *)
+    and [p] itself, is recognised afterwards - what the range limit forgets falls below the
+    raised [deletedBelow] *)
+Lemma hist_recv_retains_strong : forall h p q, hist_ok h ->
+  (q = p \/ q < deletedBelow h \/ inR q (ranges h)) ->
+  let h' := fst (hist_recv h p) in
+  q < deletedBelow h' \/ inR q (ranges h').
+Proof.
+  intros h p q Hok Hq. pose proof Hok as ((hi & Hwf) & Hlen). cbn zeta.
+  unfold hist_recv.
+  destruct (Z.ltb_spec p (deletedBelow h)) as [Hlt | Hge]; cbn [fst].
+  - destruct Hq as [Hq | [Hq | Hq]]; [left; lia | now left | now right].
+  - assert (Hwf' : wfa (deletedBelow h - 1) (Z.max hi (p + 2)) (ranges h)) by (eapply wfa_weaken; eauto; lia).
+    destruct (addToRanges_spec p (ranges h) _ _ Hwf') as (A1 & A2 & _); try lia.
+    destruct (addToRanges p (ranges h)) as [rs b]. cbn [fst snd ranges deletedBelow] in *.
+    destruct (trim_spec rs _ _ A1) as (_ & S2 & S3 & _). fold (trim_db (deletedBelow h) rs).
+    destruct Hq as [Hq | [Hq | Hq]]; [| left; lia |].
+    + destruct (S3 q) as [H | H]; [apply A2; now left | now right | now left].
+    + destruct (S3 q) as [H | H]; [apply A2; now right | now right | now left].
+Qed.
+
 Lemma hist_recv_retains : forall h p q, hist_ok h ->
   (q = p \/ q < deletedBelow h \/ inR q (ranges h)) ->
   let h' := fst (hist_recv h p) in
   q < deletedBelow h' \/ inR q (ranges h') \/ le_opt q (pruned_by h p).
 Proof.
-  intros h p q Hok Hq. pose proof Hok as ((hi & Hwf) & Hlen). cbn zeta.
-  unfold hist_recv, pruned_by.
-  destruct (Z.ltb_spec p (deletedBelow h)) as [Hlt | Hge]; cbn [fst].
-  - destruct Hq as [Hq | [Hq | Hq]]; [left; lia | now left | right; now left].
-  - assert (Hwf' : wfa (deletedBelow h - 1) (Z.max hi (p + 2)) (ranges h)) by (eapply wfa_weaken; eauto; lia).
-    destruct (addToRanges_spec p (ranges h) _ _ Hwf') as (A1 & A2 & _); try lia.
-    destruct (addToRanges p (ranges h)) as [rs b]. cbn [fst snd ranges deletedBelow] in *.
-    destruct Hq as [Hq | [Hq | Hq]]; [| now left |].
-    + assert (Hin : inR q rs) by (apply A2; now left).
-      destruct (classic_inR q (truncate rs)) as [Ht | Ht]; [right; now left |].
-      right; right. destruct (truncate_dropped rs _ _ q A1 Hin Ht) as (_ & Hd & _).
-      assert (Hw : wfa (deletedBelow h - 1) (Z.max hi (p + 2)) (firstn (length rs - Z.to_nat rph_MaxNumAckRanges) rs)).
-      { rewrite <- (firstn_skipn (length rs - Z.to_nat rph_MaxNumAckRanges) rs) in A1. now apply wfa_app_l in A1. }
-      destruct (wfa_le_last_end _ _ _ q Hw Hd) as (s & e & l' & Hr & Hle). rewrite Hr. exact Hle.
-    + assert (Hin : inR q rs) by (apply A2; now right).
-      destruct (classic_inR q (truncate rs)) as [Ht | Ht]; [right; now left |].
-      right; right. destruct (truncate_dropped rs _ _ q A1 Hin Ht) as (_ & Hd & _).
-      assert (Hw : wfa (deletedBelow h - 1) (Z.max hi (p + 2)) (firstn (length rs - Z.to_nat rph_MaxNumAckRanges) rs)).
-      { rewrite <- (firstn_skipn (length rs - Z.to_nat rph_MaxNumAckRanges) rs) in A1. now apply wfa_app_l in A1. }
-      destruct (wfa_le_last_end _ _ _ q Hw Hd) as (s & e & l' & Hr & Hle). rewrite Hr. exact Hle.
+  intros h p q Hok Hq. cbn zeta. destruct (hist_recv_retains_strong h p q Hok Hq); tauto.
 Qed.
 
 Lemma hist_delete_below_retains : forall h p q, hist_ok h ->
@@ -707,4 +776,43 @@ Proof.
   pose proof (duplicate_detected ops q Hin) as H. cbn zeta in H.
   rewrite (hrunW_none ops (newHist, None) newHist_ok eq_refl) in H by (cbn; lia).
   rewrite hrunW_fst in H. cbn [fst] in H. apply H. intros [].
+Qed.
+
+(** * With the repaired trimming: every received number stays recognised, without exception *)
+
+Definition known (h : hist) (q : Z) : Prop := q < deletedBelow h \/ inR q (ranges h).
+
+Lemma hstep_known : forall h o q, hist_ok h -> (known h q \/ o = HRecv q) -> known (fst (hstep h o)) q.
+Proof.
+  intros h o q Hok Hq. unfold known in *. destruct o as [p | p | p | p]; cbn [hstep].
+  - assert (Hc : q = p \/ q < deletedBelow h \/ inR q (ranges h)).
+    { destruct Hq as [[Hq | Hq] | Hq]; [tauto | tauto | left; congruence]. }
+    pose proof (hist_recv_retains_strong h p q Hok Hc) as H. destruct (hist_recv h p). exact H.
+  - destruct Hq as [Hq | Hq]; [| discriminate]. now apply hist_delete_below_retains.
+  - destruct Hq as [Hq | Hq]; [assumption | discriminate].
+  - destruct Hq as [Hq | Hq]; [assumption | discriminate].
+Qed.
+
+Lemma hrun_known : forall ops h q, hist_ok h -> (known h q \/ In (HRecv q) ops) -> known (fst (hrun h ops)) q.
+Proof.
+  induction ops as [| o ops IH]; intros h q Hok Hq.
+  - destruct Hq as [Hq | []]. exact Hq.
+  - cbn [hrun]. pose proof (hstep_ok h o Hok) as H1. pose proof (hstep_known h o q Hok) as H2.
+    destruct (hstep h o) as [h' r]. cbn [fst] in *.
+    specialize (IH h' q H1). destruct (hrun h' ops) as [h'' rs]. cbn [fst] in *.
+    apply IH. destruct Hq as [Hq | [Hq | Hq]]; [left; apply H2; now left | left; apply H2; now right | now right].
+Qed.
+
+(** Every number ever passed to ReceivedPacket is flagged by IsPotentiallyDuplicate and refused by
+    ReceivedPacket, after every history of calls - no exception for the range limit any more. *)
+Lemma duplicate_detected_always : forall ops q,
+  In (HRecv q) ops ->
+  let h := fst (hrun newHist ops) in
+  is_dup h q = true /\ snd (hist_recv h q) = false.
+Proof.
+  intros ops q Hin h.
+  assert (Hok : hist_ok h) by (apply hrun_ok, newHist_ok).
+  assert (Hk : known h q) by (apply hrun_known; [apply newHist_ok | now right]).
+  assert (Hd : is_dup h q = true) by (apply is_dup_spec; assumption).
+  split; [assumption |]. rewrite hist_recv_isNew by assumption. now rewrite Hd.
 Qed.
